@@ -489,8 +489,11 @@ def run(ctx, prj: Project):
     ctx.trust("json.loads raises ValueError; subscripting untrusted JSON raises KeyError/TypeError/IndexError; text-mode "
               "read raises UnicodeDecodeError (a ValueError) or OSError", "write_text truncates", "CPython ast")
     before = len(ctx.violations)
-    rule_R4(ctx, prj)
     decided = rule_R5_history(ctx, prj, thorough=(ctx.tier == "thorough"))
+    # R4 looks at the reader through the scan module's own helper; the same documents (every key of every level missing) are
+    # among the scenarios of R5, which observes the command itself: where the helper is not there, R5 decides
+    r5_ok = bool(decided) and not any(v.rule == "R5" for v in ctx.violations)
+    ctx.complement("R4", lambda: rule_R4(ctx, prj), decided=r5_ok, by="the evaluated scan histories (R5)")
     try:
         r = Reader(prj)
         rule_R1(ctx, prj, r)
@@ -504,8 +507,9 @@ def run(ctx, prj: Project):
         ctx.info(f"R1 not applicable to this form ({e})")
         ctx.instances["R1"] = []
         r = None
-    rule_R3(ctx, prj)
-    evaluated_ok = bool(decided) and not any(v.rule in ("R4", "R5") for v in ctx.violations) and ctx.floors.get("R4", 0) > 0 and ctx.floors.get("R5", 0) > 0
+    # R3 (write discipline read off scan_command): the states every write of the command can leave are explored by R5
+    ctx.complement("R3", lambda: rule_R3(ctx, prj), decided=r5_ok, by="the evaluated scan histories (R5)")
+    evaluated_ok = bool(decided) and not any(v.rule in ("R4", "R5") for v in ctx.violations) and ctx.floors.get("R5", 0) > 0
     # R2 is a proxy ("no handler inside the reader swallows an error"): when the wrong-shape documents (R4) and the scan
     # histories (R5) were all evaluated and no damaged cache was reused, a tolerant reader is not a violation
     mark = len(ctx.violations)
